@@ -9,7 +9,7 @@ From QV Require Import Gen.UnitSyntaxGen Model.UnitSyntax Model.UnitGrammar Mode
 Import ListNotations.
 
 (** [good_map m]: non-empty, distinct keys, every key non-empty alphabetic, every exponent non-zero
-    with a reduced denominator <= 10 (the bound of limit_denominator in the source) *)
+    with a reduced denominator <= 10 (the generated bound of limit_denominator is checked to be >= 10) *)
 Theorem C13_roundtrip : forall st m, good_map m ->
   exists u, parse (construct st m) = Some u /\ forall k, dim u k == dim m k.
 Proof. exact roundtrip_lemma. Qed.
